@@ -51,6 +51,9 @@ TEnd ==
     /\ th[R.t].res = R.res
     /\ LET f == file[R.p] IN
        /\ R.mode = f.mode
+       \* a loose sidecar (-journal) can only be the transient file of ANOTHER call still in flight on this path
+       \* (SQLite gives a journal the mode the database file had when the journal was created)
+       /\ (R.smode = "loose") => \E u \in Threads \ {R.t} : th[u].p = R.p /\ th[u].pc \notin {"idle", "ret"}
        /\ R.dmode = f.dmode
        /\ (R.res = "Ok") => (Rng(R.data) = f.data)
     /\ End(R.t)
@@ -105,6 +108,7 @@ InvScan ==
            /\ (x.step = "reopened") => x.res = "DataReadable"
            /\ (x.mode = "keyring") => x.leaks = <<>>
       /\ (x.op = "ScanEnd" /\ x.mode = "keyring") => x.transient_leaks = <<>>
+      /\ (x.op = "ScanEnd") => x.transient_loose = <<>>          \* no file ever seen group/world accessible
       /\ (x.op = "ScanEnd" /\ x.mode = "unenc") => Rng(x.kinds) \subseteq Rng(x.found_kinds)
 
 \* acceptance: some explanation consumed every line
